@@ -54,6 +54,16 @@ CHECKS = {
    text="Every sequence up to the depth bound of heartbeat ticks, pairwise exchanges (GossipOnceWith towards members the initiator knows), host state changes and restarts (Heartbeat.Restart) over 2-3 (thorough: 4) nodes starting from full, chain and star knowledge. After every event no observer's record of any member regresses, no record changes without a newer heartbeat, and every held (member, heartbeat) record equals what its host wrote (new generation supersedes the old). In every distinct reached state the closing round - every node ticks once, then every pair exchanges once - is executed in every pair order and initiator choice (3 nodes: 48 variants) and must leave all views identical and complete.",
    note="synchronous in-memory freighter mock transport; restart modelled as Heartbeat.Restart() of the host record (what cluster.Open does) - persistence of the generation across a crash (cluster.Open + kv flush) is not exercised; pairs that cannot exchange because neither side knows the other make no convergence claim.",
    design="3/C12"),
+ "C06": dict(level="model_checking", engine="seqx",
+   technique="explicit-state BFS over delivery orders/duplications/batchings into the real ingress pipeline of an aspen kv node (kv.Open), fold-of-maximum reference on value+digest",
+   text="For two operation sets (one key with equal versions from two leaseholders and a newer delete; two keys with three versions) every sequence up to the depth bound of deliveries through the real operation transport into a real node's pipeline - each operation 1-2 times, alone or in two-op batches, any order - interleaved with local writes of the host on a key it leases. After every step (a sentinel transaction is awaited so the asynchronous pipeline has drained) the stored (version, leaseholder) of every key has not decreased and value+digest equal the maximum by (version, leaseholder) of everything applied, independent of order, duplication and batching.",
+   note="in-memory freighter mock transports, memkv engine, real idle peer; clause 3 of the property (cluster-wide quiescence, restart recovery) is not decided by this check yet: gossip emitters are idle so that deliveries are exactly the enumerated ones.",
+   design="3/C06"),
+ "C13": dict(level="model_checking", engine="seqx",
+   technique="explicit-state BFS over delivery orders/duplications/batchings into the real kv pipeline with three real subscribers (unfiltered, host-leaseholder filter, late subscriber); notification sequence compared with the state-changing operations",
+   text="Same exploration as C06 through the real kv.Open pipeline (filter/persist, persist splitter relay, asynchronous observer) with three subscribers registered through DB.OnChange / NewObservable(IgnoreHostLeaseholder).OnChange, one of them attaching mid-traffic. After every step each subscriber must have been notified of exactly the operations that changed the node's stored state since its subscription - each once, in order, never one that lost to an already stored operation - and the filtered subscriber of exactly those minus host-led transactions.",
+   note="in-memory transports; 'keeps up' holds by construction (one transaction in flight, relay buffer 500); observers carry no versions, operations are identified by unique values.",
+   design="3/C13"),
 }
 NOT_YET = {}
 props = [json.loads(l) for l in open(os.path.join(HERE, "properties.jsonl"))]
